@@ -1,8 +1,8 @@
 package props
 
 import (
-	"encoding/json"
 	"context"
+	"encoding/json"
 	"fmt"
 	"sort"
 	"strings"
@@ -25,25 +25,25 @@ import (
 // C17 — upgrade from a built-in StatefulSet never loses pods and survives interruption.
 
 type C17Case struct {
-	SelKeys    int   `json:"sel_keys"`  // 1..3 matchLabels keys
-	SelExpr    bool  `json:"sel_expr"`  // plus a matchExpressions requirement
-	Revs       int   `json:"revs"`      // 0..5 revisions of the set
+	SelKeys int  `json:"sel_keys"` // 1..3 matchLabels keys
+	SelExpr bool `json:"sel_expr"` // plus a matchExpressions requirement
+	Revs    int  `json:"revs"`     // 0..5 revisions of the set
 	// OrphanMask: bit i set = revision i matches the selector but has no owner (left behind by an orphaning
 	// delete + re-create of the built-in set, not yet adopted): still a revision of the set
 	OrphanMask int `json:"orphan_mask,omitempty"`
 	// Collision: the built-in set's status.collisionCount (nil when 0 is drawn with HasCollision false)
 	HasCollision bool  `json:"has_collision,omitempty"`
 	Collision    int32 `json:"collision,omitempty"`
-	Unrelated  int   `json:"unrelated"` // revisions of somebody else
-	Pods       int   `json:"pods"`
-	Claims     int   `json:"claims"`
-	PreExists  int   `json:"pre_exists"` // 0 no Advanced object, 1 one with the same spec, 2 one with a different spec
-	Replicas   int32 `json:"replicas"`
-	Partition  int32 `json:"partition"`
-	Positions  []int `json:"positions"`
-	All        bool  `json:"all"`
-	Retries    int   `json:"retries"`     // how many attempts get a fault (1..3)
-	SecondKind int   `json:"second_kind"` // fault kind for the later faulted attempts
+	Unrelated    int   `json:"unrelated"` // revisions of somebody else
+	Pods         int   `json:"pods"`
+	Claims       int   `json:"claims"`
+	PreExists    int   `json:"pre_exists"` // 0 no Advanced object, 1 one with the same spec, 2 one with a different spec
+	Replicas     int32 `json:"replicas"`
+	Partition    int32 `json:"partition"`
+	Positions    []int `json:"positions"`
+	All          bool  `json:"all"`
+	Retries      int   `json:"retries"`     // how many attempts get a fault (1..3)
+	SecondKind   int   `json:"second_kind"` // fault kind for the later faulted attempts
 }
 
 func (c C17Case) Summary() interface{} { return c }
